@@ -9,6 +9,7 @@
   `content` is always `ts.flatten.flatten`: the bytes the turns read, in order.
 -/
 import FileD.Lemmas.Worker
+import FileD.Lemmas.WorkerPipe
 namespace FileD.PropsC06
 open FileD FileD.Worker FileD.SpecC06
 
@@ -164,5 +165,33 @@ theorem worker_cut_then_admission (max : Nat) (hmax : 0 < max) (base : Nat) (ts 
 
 example : cutAtLimit 2 [97, 98, 101, 102, 103, 10] = [97, 98, 10] ∧
     cutAtLimit 2 [97, 98, 99, 100, 101, 102, 103, 10] = [97, 98, 10] := by decide
+
+/-- **behind the real pipeline**: the calls of the worker model, each put through the model of
+    `Pipeline.In` (`Admission.inStep`, decoder raw, the same `max_event_size` / cut-off setting), never
+    panic and deliver exactly `pipeSpec`: for every complete line that is not empty one event with the
+    line's end offset — the line itself (without its newline) when it has at most `max` bytes, the
+    line of exactly `max` bytes included; nothing (skip) or its first `max` bytes (cut) when it is
+    longer; neighbours untouched. Worker (`len(accumBuf)+len(line) > max`) and pipeline
+    (`length > max`) agree on what "over the limit" means — for every configuration, start mode,
+    content and split into turns and reads. `pipeHolds` is the oracle `./check C06` applies to the
+    events the real output receives in the `c06.pipe` cases. -/
+theorem worker_pipeline_holds (cfg : Cfg) (skip : Bool) (base : Nat) (ts : List (List Bytes)) :
+    WorkerPipe.deliver cfg (turns cfg ⟨base, [], skip⟩ ts).2 = .ok (pipeSpec cfg skip base ts.flatten.flatten) ∧
+    pipeHolds cfg skip base ts.flatten.flatten (pipeSpec cfg skip base ts.flatten.flatten) = true := by
+  have hm := (turns_post cfg ⟨base, [], skip⟩ ts [] (Carry.refl cfg [])).out
+  refine ⟨?_, by simp [pipeHolds]⟩
+  rw [WorkerPipe.deliver_eq]
+  congr 1
+  exact WorkerPipe.filterMap_of_match cfg hm
+    (fun x hx => specLines_getLast (WorkerPipe.dropFirst_mem hx))
+
+-- non-vacuity: limit 8; "1234567\n" is exactly 8 bytes: delivered unchanged in both modes, and so
+-- are its neighbours; the 9-byte line is dropped (skip) or cut to 8 bytes (cut); the empty line is no event
+example : pipeSpec ⟨8, false⟩ false 0 [49, 50, 51, 52, 53, 54, 55, 10, 97, 98, 99, 10, 49, 50, 51, 52, 53, 54, 55, 56, 10, 10, 120, 121, 10]
+    = [(8, [49, 50, 51, 52, 53, 54, 55]), (12, [97, 98, 99]), (25, [120, 121])] := by decide
+example : pipeSpec ⟨8, true⟩ false 0 [49, 50, 51, 52, 53, 54, 55, 10, 97, 98, 99, 10, 49, 50, 51, 52, 53, 54, 55, 56, 10, 10, 120, 121, 10]
+    = [(8, [49, 50, 51, 52, 53, 54, 55]), (12, [97, 98, 99]), (21, [49, 50, 51, 52, 53, 54, 55, 56]), (25, [120, 121])] := by decide
+example : pipeHolds ⟨8, true⟩ false 0 [49, 50, 51, 52, 53, 54, 55, 10, 97, 98, 99, 10] [(8, [49, 50, 51, 52, 53, 54, 55, 10]), (12, [98, 99])] = false := by
+  decide
 
 end FileD.PropsC06
